@@ -68,6 +68,7 @@ type histCfg struct {
 	snapshotOps  bool // RequestSnapshot with options / exported, RequestCompaction
 	queryLog     bool // QueryRaftLog, compared with the applied entries
 	quiesce      bool // Config.Quiesce and an idle period inside the history
+	restore      bool // restore scenario after the faults: leaders that know the added members only from a snapshot
 }
 
 // roles of the hosts (index = replica id - 1)
@@ -79,7 +80,7 @@ const (
 	roleRemoved
 )
 
-const maxHosts = 6 // 1-3 initial voters, 4 non-voting, 5 voter added later, 6 witness
+const maxHosts = 7 // 1-3 initial voters, 4 non-voting, 5 voter added later, 6 witness, 7 non-voting added in the restore scenario
 
 type cluster struct {
 	cfg    histCfg
@@ -99,6 +100,7 @@ type cluster struct {
 	fss    []config.IFS
 	role   []int    // guarded by mu
 	paused int32    // clients and faults pause (idle period of the quiesce dimension)
+	avoid  int32    // host index + 1 that admin requests do not go to (it is cut off), 0 = none
 	mon    []string // gen-time monitor messages (guarded by noteMu)
 	qlog   []qentry // entries returned by QueryRaftLog (guarded by noteMu)
 }
@@ -284,7 +286,7 @@ func (c *cluster) admin(tries int, timeout time.Duration, f func(ctx context.Con
 	for try := 0; time.Now().Before(by); try++ {
 		i := try % maxHosts
 		nh := c.get(i)
-		if r := c.roleOf(i); nh == nil || (r != roleVoter && r != roleNonVoting) {
+		if r := c.roleOf(i); nh == nil || (r != roleVoter && r != roleNonVoting) || int(atomic.LoadInt32(&c.avoid)) == i+1 {
 			continue
 		}
 		ctx, cancel := context.WithTimeout(context.Background(), timeout)
@@ -1165,6 +1167,264 @@ func (c *cluster) streamRetryScenario() {
 	c.note(fmt.Sprintf("stream_retry_scenario_after_%d_writes", done))
 }
 
+// ---- restore scenario -----------------------------------------------------------
+//
+// After the faults (network healed, clients stopped). The shard has members that
+// were added by membership changes (non-voting 4, voter 5, witness 6, depending on
+// the history); one more non-voting replica (7) is added now while one voter F is
+// cut off. Snapshots are taken and the logs compacted after the change, so that a
+// replica that missed it can only learn of it from a snapshot:
+//
+//	(b) F is reconnected, is brought up to date by InstallSnapshot and is made the
+//	    leader (transfer);
+//	(a) the leader's host is restarted, recovers from its snapshot and is made
+//	    the leader again.
+//
+// Under each of the two leaders a few proposals complete and EVERY member of the
+// shard has to reach that state within restoreBound, observed from outside (state
+// machine of the replica, log range of the witness): nothing is sent from the
+// hosts of the added members, a leader has to find them by itself.
+const restoreBound = 10 * time.Second
+
+// upVoters returns the hosts that run a voting replica.
+func (c *cluster) upVoters() []int {
+	var v []int
+	for i := 0; i < maxHosts; i++ {
+		if c.get(i) != nil && c.roleOf(i) == roleVoter {
+			v = append(v, i)
+		}
+	}
+	return v
+}
+
+// leaderHost returns the host that says of itself that it leads (-1 = none).
+func (c *cluster) leaderHost() int {
+	for _, i := range c.upVoters() {
+		if nh := c.get(i); nh != nil {
+			if lid, _, ok, _ := nh.GetLeaderID(shardID); ok && lid == uint64(i+1) {
+				return i
+			}
+		}
+	}
+	return -1
+}
+
+// transferTo makes host x the leader.
+func (c *cluster) transferTo(x int, within time.Duration) bool {
+	by := time.Now().Add(within)
+	for time.Now().Before(by) {
+		l := c.leaderHost()
+		if l == x {
+			return true
+		}
+		if l >= 0 {
+			if nh := c.get(l); nh != nil {
+				_ = nh.RequestLeaderTransfer(shardID, uint64(x+1))
+			}
+		}
+		time.Sleep(100 * time.Millisecond)
+	}
+	return c.leaderHost() == x
+}
+
+// writeSome completes n proposals through voters other than skip.
+func (c *cluster) writeSome(n int, skip int, within time.Duration) (done int, last *opRec) {
+	by := time.Now().Add(within)
+	for try := 0; done < n && time.Now().Before(by); try++ {
+		i := try % maxHosts
+		nh := c.get(i)
+		if nh == nil || c.roleOf(i) != roleVoter || i == skip {
+			continue
+		}
+		op := c.doWrite(0, i, nh, uint64(1+done%c.cfg.keys), uint64(1000000+2*len(c.ops)), false, time.Second, nil, nil)
+		if op.code == c.codes["completed"] {
+			done++
+			last = op
+		} else {
+			time.Sleep(10 * time.Millisecond)
+		}
+	}
+	return done, last
+}
+
+func (c *cluster) smCount(i int) (uint64, bool) {
+	c.rec.mu.Lock()
+	s := c.rec.live[uint64(i+1)]
+	c.rec.mu.Unlock()
+	if s == nil {
+		return 0, false
+	}
+	n, _ := s.state()
+	return n, true
+}
+
+// snapshotAndCompact takes a snapshot on host i and compacts its log up to it.
+func (c *cluster) snapshotAndCompact(i int) {
+	nh := c.get(i)
+	if nh == nil {
+		return
+	}
+	for try := 0; try < 3; try++ {
+		ctx, cancel := context.WithTimeout(context.Background(), time.Second)
+		_, err := nh.SyncRequestSnapshot(ctx, shardID, dragonboat.SnapshotOption{OverrideCompactionOverhead: true, CompactionOverhead: 1})
+		cancel()
+		if err == nil {
+			c.note("restore_snapshot")
+			return
+		}
+		time.Sleep(20 * time.Millisecond)
+	}
+	c.note("restore_snapshot_err")
+}
+
+// allCatchUp: a few proposals complete, then every member reaches them within
+// restoreBound without anything being sent from its host.
+func (c *cluster) allCatchUp(key, phase string) {
+	leader := c.leaderHost()
+	done, last := c.writeSome(5, -1, 8*time.Second)
+	if done == 0 {
+		c.note("restore_" + key + "_no_write")
+		return
+	}
+	target, _ := c.smCount(last.host)
+	var lastIndex uint64
+	c.rec.mu.Lock()
+	for k := len(c.rec.applies) - 1; k >= 0; k-- {
+		if c.rec.applies[k].id == last.id {
+			lastIndex = c.rec.applies[k].index
+			break
+		}
+	}
+	c.rec.mu.Unlock()
+	kind := map[int]string{roleVoter: "voting", roleNonVoting: "non-voting", roleWitness: "witness"}
+	by := time.Now().Add(restoreBound)
+	for i := 0; i < maxHosts; i++ {
+		nh, role := c.get(i), c.roleOf(i)
+		if nh == nil || kind[role] == "" {
+			continue
+		}
+		for {
+			var have uint64
+			ok := false
+			if role == roleWitness {
+				if lr, err := nh.GetLogReader(shardID); err == nil {
+					_, have = lr.GetRange()
+					ok = lastIndex == 0 || have >= lastIndex
+				} else {
+					ok = true // no reader on this kind of replica: nothing to observe
+				}
+			} else if n, present := c.smCount(i); present {
+				have = n
+				ok = n >= target
+			} else {
+				ok = true
+			}
+			if ok {
+				break
+			}
+			if time.Now().After(by) {
+				c.violation("restore scenario (%s): the %s replica %d did not catch up within %v after proposals completed under leader %d (it has %d, needed %d); nothing is sent from its host, the leader has to reach it",
+					phase, kind[role], i+1, restoreBound, leader+1, have, map[bool]uint64{true: lastIndex, false: target}[role == roleWitness])
+				break
+			}
+			time.Sleep(10 * time.Millisecond)
+		}
+	}
+	c.note("restore_" + key + "_checked")
+}
+
+func (c *cluster) restoreScenario(r *vh.Rand) {
+	voters := c.upVoters()
+	l := c.leaderHost()
+	if len(voters) < 3 || l < 0 {
+		c.note("restore_skipped")
+		return
+	}
+	f := -1
+	for _, i := range voters {
+		if i != l {
+			f = i
+			break
+		}
+	}
+	// F is cut off; the non-voting replica 7 is added meanwhile
+	for j := range c.addrs {
+		if j != f {
+			c.net.block(c.addrs[f], c.addrs[j])
+			c.net.block(c.addrs[j], c.addrs[f])
+		}
+	}
+	atomic.StoreInt32(&c.avoid, int32(f+1))
+	joined := c.join(6, roleNonVoting, 16)
+	if !joined {
+		c.note("restore_join7_failed")
+	}
+	need := 12
+	if c.cfg.snapEvery > 0 {
+		need = int(c.cfg.snapEvery) + 8
+	}
+	c.writeSome(need, f, 8*time.Second)
+	// every connected voter compacts its log beyond what F holds
+	for _, i := range voters {
+		if i != f {
+			c.snapshotAndCompact(i)
+		}
+	}
+	c.writeSome(3, f, 3*time.Second)
+	c.rec.mu.Lock()
+	before := c.rec.recovers + c.rec.streams
+	c.rec.mu.Unlock()
+	atomic.StoreInt32(&c.avoid, 0)
+	c.net.heal()
+	// (b) F catches up (by InstallSnapshot) and becomes the leader
+	by := time.Now().Add(restoreBound)
+	for time.Now().Before(by) {
+		a, _ := c.smCount(f)
+		b, _ := c.smCount(c.leaderHostOr(l))
+		if a >= b && b > 0 {
+			break
+		}
+		time.Sleep(10 * time.Millisecond)
+	}
+	c.rec.mu.Lock()
+	installed := c.rec.recovers+c.rec.streams > before
+	c.rec.mu.Unlock()
+	if installed {
+		c.note("restore_follower_installed_snapshot")
+	}
+	if c.transferTo(f, 4*time.Second) {
+		c.note("restore_b_leader_from_install_snapshot")
+		c.allCatchUp("b", "b: leader brought up to date by InstallSnapshot")
+	} else {
+		c.note("restore_b_transfer_failed")
+	}
+	// (a) the leader's host restarts from a snapshot taken after the changes
+	x := c.leaderHost()
+	if x < 0 {
+		c.note("restore_a_no_leader")
+		return
+	}
+	c.snapshotAndCompact(x)
+	c.restartHost(x, r)
+	if c.get(x) == nil {
+		c.note("restore_a_restart_failed")
+		return
+	}
+	if c.transferTo(x, 6*time.Second) {
+		c.note("restore_a_leader_restarted_from_snapshot")
+		c.allCatchUp("a", "a: leader's host restarted from its snapshot")
+	} else {
+		c.note("restore_a_transfer_failed")
+	}
+}
+
+func (c *cluster) leaderHostOr(d int) int {
+	if l := c.leaderHost(); l >= 0 {
+		return l
+	}
+	return d
+}
+
 type histResult struct {
 	ops     []*opRec
 	log     []applyRec // one per index, index order
@@ -1209,6 +1469,9 @@ func runHistory(cfg histCfg) (*histResult, error) {
 	time.Sleep(40 * time.Millisecond)
 	if cfg.onDisk && cfg.snapEvery > 0 {
 		c.streamRetryScenario()
+	}
+	if cfg.restore {
+		c.restoreScenario(subRand(cfg.seed, 888))
 	}
 	// settle: one more write, then a linearizable read on every host that runs a
 	// replica of the final membership, so that every replica has applied the whole log
@@ -1407,8 +1670,8 @@ func runHistory(cfg histCfg) (*histResult, error) {
 	}
 	c.noteMu.Lock()
 	if len(c.mon) > 0 {
-		sort.Strings(c.mon)
-		res.mon = c.mon[0]
+		// in the order they were raised, the first three
+		res.mon = strings.Join(c.mon[:min(3, len(c.mon))], " && ")
 	}
 	c.noteMu.Unlock()
 	return res, nil
